@@ -356,18 +356,39 @@ func successEdge2(call *ssa.Call) (*ssa.BasicBlock, *ssa.BasicBlock) {
 		if !ok {
 			continue
 		}
-		for _, r2 := range *ex.Referrers() {
-			bo, ok := r2.(*ssa.BinOp)
-			if !ok || (bo.Op != token.NEQ && bo.Op != token.EQL) || !(isNilConst(bo.X) || isNilConst(bo.Y)) {
-				continue
-			}
-			for _, r3 := range *bo.Referrers() {
-				if ifi, ok := r3.(*ssa.If); ok {
-					if bo.Op == token.NEQ {
-						return ifi.Block(), ifi.Block().Succs[1]
-					}
-					return ifi.Block(), ifi.Block().Succs[0]
+		if from, to := nilTestEdge(ex, 0); to != nil {
+			return from, to
+		}
+	}
+	return nil, nil
+}
+
+// nilTestEdge: the edge taken when v == nil, where v is tested directly or -
+// when v is merged with other values into a result variable (`return f()` of an
+// inlined helper) - through the merge: on the merge's nil edge every value that
+// flowed into it was nil.
+func nilTestEdge(v ssa.Value, depth int) (*ssa.BasicBlock, *ssa.BasicBlock) {
+	if depth > 3 || v.Referrers() == nil {
+		return nil, nil
+	}
+	for _, r2 := range *v.Referrers() {
+		bo, ok := r2.(*ssa.BinOp)
+		if !ok || (bo.Op != token.NEQ && bo.Op != token.EQL) || !(isNilConst(bo.X) || isNilConst(bo.Y)) {
+			continue
+		}
+		for _, r3 := range *bo.Referrers() {
+			if ifi, ok := r3.(*ssa.If); ok {
+				if bo.Op == token.NEQ {
+					return ifi.Block(), ifi.Block().Succs[1]
 				}
+				return ifi.Block(), ifi.Block().Succs[0]
+			}
+		}
+	}
+	for _, r2 := range *v.Referrers() {
+		if ph, ok := r2.(*ssa.Phi); ok {
+			if from, to := nilTestEdge(ph, depth+1); to != nil {
+				return from, to
 			}
 		}
 	}
@@ -376,27 +397,8 @@ func successEdge2(call *ssa.Call) (*ssa.BasicBlock, *ssa.BasicBlock) {
 
 // successEdgeOf: the block entered when the call's error result is nil.
 func successEdgeOf(call *ssa.Call) *ssa.BasicBlock {
-	for _, ref := range *call.Referrers() {
-		ex, ok := ref.(*ssa.Extract)
-		if !ok {
-			continue
-		}
-		for _, r2 := range *ex.Referrers() {
-			bo, ok := r2.(*ssa.BinOp)
-			if !ok || (bo.Op != token.NEQ && bo.Op != token.EQL) || !(isNilConst(bo.X) || isNilConst(bo.Y)) {
-				continue
-			}
-			for _, r3 := range *bo.Referrers() {
-				if ifi, ok := r3.(*ssa.If); ok {
-					if bo.Op == token.NEQ {
-						return ifi.Block().Succs[1]
-					}
-					return ifi.Block().Succs[0]
-				}
-			}
-		}
-	}
-	return nil
+	_, to := successEdge2(call)
+	return to
 }
 
 // checkReserveRequest: the granted atom in `form` belongs to a dominating
